@@ -290,6 +290,9 @@ func runC18(c *runCtx, idx int, r *rand.Rand) {
 	desc := fmt.Sprintf("queue %d, connection buffer %d, max connections %d, delay p=%.1f", cfg.Size, cfg.BufferSize, cfg.MaxConnections, pDelay)
 	fail := func(sig, f string, a ...any) { c.violate("C18", idx, sig, fmt.Sprintf(f, a...)+" ("+desc+")", nil) }
 
+	if cfg.MaxConnections >= 3 && cfg.Size >= 2 {
+		x.busyWorkerScenario(fail)
+	}
 	if limitRun {
 		x.limitScenario(r, cfg, fail)
 	} else {
@@ -673,4 +676,61 @@ func (x *c18) limitScenario(r *rand.Rand, cfg *poll.Config, fail func(string, st
 		}
 	}
 	x.judge(live, fail)
+}
+
+// busyWorkerScenario: a listener connects, and a message for its group is sent, while the transport's worker is busy
+// with another message (both are done from that message's completion callback, which runs on the worker). The
+// connection was confirmed to the client (response headers received) before the message was handed to the transport,
+// and the worker attends to connection changes before it takes the next message, so the message reaches the listener.
+func (x *c18) busyWorkerScenario(fail func(string, string, ...any)) {
+	l0 := x.connect("bw0", "a")
+	if l0.status != 200 || !x.barrier(l0, 3*time.Second) {
+		x.c.rep.Inconclusive++
+		return
+	}
+	var l1 *stream
+	var m2 *msgRec
+	n := x.nmsg.Add(1)
+	m1 := &msgRec{body: fmt.Sprintf(`{"m":%d,"run":%d}`, n, x.idx), typ: "invoke", group: "bw0", id: "a", phase: -1}
+	x.mmu.Lock()
+	x.msgs = append(x.msgs, m1)
+	x.mmu.Unlock()
+	fin := make(chan struct{})
+	ok := x.p.Enqueue(&aio.Message{Type: message.Type("invoke"), Data: []byte(`{"group":"bw0","id":"a"}`), Body: []byte(m1.body), Done: func(success bool, err error) {
+		m1.ok.Store(success)
+		m1.done.Add(1)
+		l1 = x.connect("bw1", "b")
+		if l1.status == 200 {
+			m2 = x.send("invoke", "bw1", "", -1)
+		}
+		close(fin)
+	}})
+	if !ok {
+		x.c.rep.Inconclusive++
+		return
+	}
+	select {
+	case <-fin:
+	case <-time.After(10 * time.Second):
+		x.c.rep.Inconclusive++
+		return
+	}
+	if l1 == nil || l1.status != 200 || m2 == nil || m2.refuse {
+		x.c.rep.Inconclusive++
+		return
+	}
+	deadline := time.Now().Add(3 * time.Second)
+	for time.Now().Before(deadline) && !(m2.done.Load() > 0 && (l1.has(m2.body) || !m2.ok.Load())) {
+		time.Sleep(2 * time.Millisecond)
+	}
+	x.c.rep.Hit("busy-worker.connect-then-send-judged")
+	if m2.done.Load() == 0 {
+		fail("busy-worker:no-completion", "a message sent from another message's completion callback was never completed")
+	} else if !m2.ok.Load() || !l1.has(m2.body) {
+		e, _ := m2.errs.Load().(string)
+		fail("busy-worker:confirmed-listener-missed", "listener bw1/b connected (response headers received) and then a message for group bw1 was handed to the transport, both while the worker was busy with another message; the message was reported delivered=%v (%s) and received=%v", m2.ok.Load(), e, l1.has(m2.body))
+	}
+	x.disconnect(l0)
+	x.disconnect(l1)
+	time.Sleep(10 * time.Millisecond)
 }
